@@ -201,6 +201,10 @@ def read_num_token(i, s):
             elif "o" == raw_base: base = 8
             elif "x" == raw_base: base = 16
         try:
+            # int() tolerates a second base prefix, e.g. int("0b1", base=2),
+            # so check the digits themselves.
+            if any(int(c, 16) >= base for c in m.group(2)):
+                raise BadNumberError(i)
             return Token(Tokens.NUM, m.start(), m.end(),
                          value=int(m.group(2), base=base))
         except ValueError:
